@@ -1758,6 +1758,19 @@ class LinkTimeExpressionEvaluator(ConstantExpressionEvaluator):
         super().__init__(codegenerator.context)
         self.codegenerator = codegenerator
 
+    def eval_variable_access(self, expr):
+        declaration = expr.variable.declaration
+        if (
+            isinstance(declaration, declarations.VariableDeclaration)
+            and not declaration.typ.is_array
+        ):
+            # Only an array designates its address; the value of any
+            # other object is not known before the program runs.
+            self.not_constant(
+                expr.location, f'The value of "{declaration.name}"'
+            )
+        return super().eval_variable_access(expr)
+
     def eval_global_access(self, declaration):
         # emit reference to global symbol
         cval = (ir.ptr, declaration.name)
